@@ -47,6 +47,13 @@ func c10Cases(tier string) []Case {
 		c10Case("meta-origin", []string{`monetary $x = meta(@a, "k")`}, []string{send("$x", "@b", "@d")}, nil, "a.k=USD 12", ""),
 		c10Case("meta-origin", []string{`account $x = meta(@zz, "k")`}, []string{send("%N", "$x", "@d")}, nil, "a.k=c", ""),
 		c10Case("portion-variable", nil, []string{send("%N", "{ $p from @a remaining from @b }", "{ $q to @d remaining kept }")}, map[string][2]string{"p": {"portion", "portion:1/3"}, "q": {"portion", "portion:1/4"}}, "", ""),
+		c10Case("world-bounded-overdraft", nil, []string{send("%N", "{ @a @world allowing overdraft up to %K }", "@d")}, nil, "", ""),
+		c10Case("world-bounded-overdraft", nil, []string{sendAll("USD", "{ @a @world allowing overdraft up to %K }", "@d")}, nil, "", ""),
+		c10Case("two-assets-no-origin", nil, []string{"send [EUR 4] (\n  source = { @a allowing overdraft up to [EUR 5] @world }\n  destination = @d\n)", send("%N", "@a", "@e")}, nil, "", ""),
+		c10Case("two-assets-no-origin", []string{bal("m", "a", "EUR")}, []string{send("%N", "@a", "@d"), send("$m", "@a", "@e"), send("%N", "{ @a @b }", "@d")}, nil, "", ""),
+		c10Case("two-saves-two-assets", nil, []string{"save %N from @a", "save [EUR 1] from @a", send("%N", "@a", "@d")}, nil, "", ""),
+		c10Case("unknown-account", nil, []string{send("%N", "@a", "@b"), "save %N from @p", send("%N", "{ @a @world }", "@e")}, map[string][2]string{"_omit": {"", "p"}}, "", ""),
+		c10Case("unknown-account", nil, []string{send("%N", "@a", "@b"), sendAll("EUR", "@c", "@d"), send("%N", "@a", "@e")}, map[string][2]string{"_omit": {"", "c"}}, "", ""),
 		c10Case("account-variable", nil, []string{send("%N", "{ $s @b }", "@d")}, map[string][2]string{"s": {"account", "acc:a"}}, "", ""),
 		c10Case("two-assets", []string{bal("m", "a", "EUR")}, []string{send("%N", "@a", "@d"), send("$m", "@a", "@e")}, nil, "", ""),
 	)
